@@ -2150,7 +2150,21 @@ func derivesFromField(v ssa.Value, tname, fname string) bool {
 func queuedTaskRule(r *core.Run, rule string, ui *ssa.Function, okText, badText string) {
 	p := r.P
 	fns := p.FuncsOfPkg("store/badgerstore")
-	for _, c := range callsTo(fns, ui) {
+	// call sites: the calls of ui, or - when ui is only called from a private helper that the task
+	// calls (updateIndexAndLog) - the calls of that helper
+	var sites []ssa.CallInstruction
+	var expand func(fn *ssa.Function, depth int)
+	expand = func(fn *ssa.Function, depth int) {
+		for _, c := range callsTo(fns, fn) {
+			if par := c.Parent(); depth < 3 && par.Parent() == nil && p.IsPrivateHelper(par) && !core.IsGo(c) && !core.IsDefer(c) {
+				expand(par, depth+1)
+				continue
+			}
+			sites = append(sites, c)
+		}
+	}
+	expand(ui, 0)
+	for _, c := range sites {
 		cl := c.Parent()
 		good := cl.Parent() != nil && !core.IsGo(c)
 		if good {
